@@ -251,6 +251,19 @@ Definition counts (rows : list qrow) (s : state) : list Z :=
 
 Definition fuel0 : nat := 200.
 
+(* the configurations-as-data the suites may use: an acyclic forest, every
+   parent index below its child's (checked on every case; Phased.wfb_spec:
+   wfb rows = true <-> Proofs.wf (mkcfg rows)) *)
+Fixpoint wf_rows_from (i : Z) (rows : list qrow) : bool :=
+  match rows with
+  | [] => true
+  | row :: t =>
+      (match snd row with None => true | Some p => (0 <=? p) && (p <? i) end)
+      && wf_rows_from (i + 1) t
+  end.
+
+Definition wfb (rows : list qrow) : bool := wf_rows_from 0 rows.
+
 (* verdict code of a finished operation: 1 allowed, 0 refused, -1 no verdict,
    -99 the operation did not finish within the fuel (never equal to an
    observation, so it is always reported) *)
@@ -304,7 +317,7 @@ Definition case_res := (list qrow * list (rstep * obs))%type.
 Definition run_res (k : case_res) : option (list obs) :=
   let '(rows, script) := k in
   let m := run_rsteps rows (mkcfg rows) (init 0) (map fst script) in
-  if obs_eqb m (map snd script) then None else Some m.
+  if wfb rows && obs_eqb m (map snd script) then None else Some m.
 
 (* --- suite "eng": transactions through the engine ---
    The quota-relevant processors the engine executed for an event are part of
@@ -381,4 +394,4 @@ Definition case_eng := (list qrow * list (eev * eobs))%type.
 Definition run_eng (k : case_eng) : option (list eobs) :=
   let '(rows, script) := k in
   let m := run_eevs rows (mkcfg rows) (init 0) (map fst script) in
-  if eobs_eqb m (map snd script) then None else Some m.
+  if wfb rows && eobs_eqb m (map snd script) then None else Some m.
